@@ -1,0 +1,50 @@
+//! Verification hooks (compiled only with the `verif-hooks` cargo feature).
+//!
+//! A test harness can install a per-thread [`Scheduler`]; instrumented sites in the
+//! storage layer then call [`yield_point`] / [`before_lock`] so that the harness decides
+//! which registered thread runs next. When no scheduler is installed on the calling
+//! thread every hook is a no-op, so behaviour is unchanged.
+
+use std::cell::RefCell;
+use std::sync::Arc;
+
+/// Harness-side scheduler interface.
+pub trait Scheduler: Send + Sync {
+    /// The calling thread reached instrumented site `site` and may be preempted here.
+    fn yield_point(&self, site: &'static str);
+    /// The calling thread is about to take a blocking lock; `is_locked` reports whether
+    /// the lock is currently held by somebody else.
+    fn before_lock(&self, site: &'static str, is_locked: &dyn Fn() -> bool);
+}
+
+thread_local! {
+    static SCHED: RefCell<Option<Arc<dyn Scheduler>>> = const { RefCell::new(None) };
+}
+
+/// Install a scheduler for the calling thread.
+pub fn install(s: Arc<dyn Scheduler>) {
+    SCHED.with(|c| *c.borrow_mut() = Some(s));
+}
+
+/// Remove the calling thread's scheduler.
+pub fn uninstall() {
+    SCHED.with(|c| *c.borrow_mut() = None);
+}
+
+fn current() -> Option<Arc<dyn Scheduler>> {
+    SCHED.try_with(|c| c.borrow().clone()).ok().flatten()
+}
+
+/// Preemption point.
+pub fn yield_point(site: &'static str) {
+    if let Some(s) = current() {
+        s.yield_point(site);
+    }
+}
+
+/// Preemption point in front of a blocking lock acquisition.
+pub fn before_lock(site: &'static str, is_locked: &dyn Fn() -> bool) {
+    if let Some(s) = current() {
+        s.before_lock(site, is_locked);
+    }
+}
